@@ -109,7 +109,8 @@ def run_task(task):
     # used when the deductive run is undecided (and always in the thorough tier)
     res["enumeration"] = None
     import os
-    undec = status != "ok" or any(o.status == "undecided" for o in ex.obligations.values())
+    # also when an obligation failed: the enumeration may supply the concrete failing input
+    undec = status != "ok" or any(o.status in ("undecided", "failed") for o in ex.obligations.values())
     if task.enumerate is not None and (undec or os.environ.get("VERIF_TIER") == "thorough"):
         try:
             en = task.enumerate(int(os.environ.get("VERIF_SEED", "0") or 0))
